@@ -439,7 +439,7 @@ fn main() {
     rep.sample(json!({"individual_history": format!("{:?}", [IOp::Eval(0, 0), IOp::CloneOver(0), IOp::MutNoWrite(1), IOp::CloneFrom(1), IOp::Eval(0, 1)])}));
     individual_histories(&rep, len);
 
-    let seeds = rep.tier.pick(10usize, 40usize);
+    let seeds = rep.tier.pick(10usize, 200usize);
     let cases = templates::cases(rep.quick(), rep.seed, seeds);
     let n = cases.len();
     std::thread::scope(|s| {
@@ -455,8 +455,8 @@ fn main() {
         }
     });
     rep.count("template_runs", n as u64);
-    pipelines(&rep, rep.tier.pick(10_000, 100_000));
-    hostile_swarm_states(&rep, rep.tier.pick(4_000, 60_000));
+    pipelines(&rep, rep.tier.pick(10_000, 1_000_000));
+    hostile_swarm_states(&rep, rep.tier.pick(4_000, 600_000));
     if rep.counter("hook_events") == 0 {
         rep.inconclusive("hook never reached");
     }
